@@ -668,7 +668,7 @@ Script minimise(const Script& start, const Probe& pr, const std::string& want, b
 struct TextGen {
     Rng& g; std::vector<int> classes; unsigned b, t; size_t est = 60; int budget = 3000; int bigLeft = 2; bool allowCRinLiteral = false;
     uint32_t pickOf(int k) {
-        static const std::vector<uint32_t> T[C_N] = { { 'a', 'Z', '0', ' ', '-', '?' }, { '<', '&' }, { '>' }, { '"', '\'' }, { ']' }, { 9 }, { 10 }, { 13 }, { 1, 8, 0xB, 0xC, 0x1B, 0x1F }, { 0 },
+        static const std::vector<uint32_t> T[C_N] = { { 'a', 'Z', '0', ' ', '-', '?', '\\', '~', '^', '`', '{' }, { '<', '&' }, { '>' }, { '"', '\'' }, { ']' }, { 9 }, { 10 }, { 13 }, { 1, 8, 0xB, 0xC, 0x1B, 0x1F }, { 0 },
             { 0x7F, 0x80, 0x84, 0x86, 0x9F }, { 0x85 }, { 0xA0, 0xE9, 0xFF, 0xD7 }, { 0x20AC, 0x4E2D, 0x3042, 0x416, 0x100, 0xFFFD, 0xD7FF, 0xE000, 0x2029 }, { 0x2028 }, { 0x10000, 0x1F600, 0x10FFFD, 0x20000 }, { 0xD800, 0xDBFF, 0xDC00, 0xDFFF }, { 0xFFFE, 0xFFFF } };
         // half of the Latin-1 picks and a third of the BMP picks come from whole blocks: single-byte code pages differ in a few positions only
         if (k == C_LATIN1 && g.chance(1, 2)) return 0xA0 + (uint32_t)g.below(0x60);
@@ -716,7 +716,7 @@ struct C04 : public Driver {
         Json p = Json::object(); p["property"] = "C04"; p["run"] = (long long)run; p["seed"] = hex64(seed); p["tier"] = tier;
         if (run % 8 == 5) return genModePlan(p, root);
         const bool wantPipeline = run % 4 == 3;
-        static const std::vector<std::pair<const char*, int>> encs = { { "UTF-8", 24 }, { "UTF-16", 15 }, { "ISO-8859-1", 15 }, { "US-ASCII", 10 }, { "windows-1252", 8 }, { "Shift_JIS", 7 }, { "ISO-8859-2", 5 }, { "GB18030", 5 }, { "UTF-16LE", 2 }, { "UTF-16BE", 2 }, { "x-sim-no-such-encoding", 4 }, { "utf-8", 3 }, { "ISO-8859-15", 4 }, { "windows-1251", 2 }, { "EUC-JP", 2 }, { "Big5", 2 }, { "ISO-8859-7", 2 }, { "KOI8-R", 1 } };
+        static const std::vector<std::pair<const char*, int>> encs = { { "UTF-8", 24 }, { "UTF-16", 15 }, { "ISO-8859-1", 15 }, { "US-ASCII", 10 }, { "windows-1252", 8 }, { "Shift_JIS", 7 }, { "ISO-8859-2", 5 }, { "GB18030", 5 }, { "UTF-16LE", 2 }, { "UTF-16BE", 2 }, { "x-sim-no-such-encoding", 4 }, { "utf-8", 3 }, { "ISO-8859-15", 4 }, { "windows-1251", 2 }, { "EUC-JP", 2 }, { "Big5", 2 }, { "ISO-8859-7", 2 }, { "KOI8-R", 1 }, { "ibm-943", 3 } };
         { int tot = 0; for (auto& e : encs) tot += e.second; int x = (int)g.below(tot); for (auto& e : encs) { if (x < e.second) { p["encoding"] = e.first; break; } x -= e.second; } }
         p["version"] = g.chance(35, 100) ? "1.1" : "1.0";
         // document type declaration, standalone, omitted XML declaration (the last only where a parser can still tell encoding and version)
@@ -810,7 +810,7 @@ struct C04 : public Driver {
     static Script neutralise(const Script& cur, const Sig& g) {
         Script r = cur; std::vector<bool> evCdata = buildModel(cur).evCdata; EncInfo& enc = encInfo(cur.encoding); bool v11 = cur.version == "1.1";
         PairMask pm = pairsOf(g.reduced, buildModel(g.reduced).evCdata);
-        if (g.reduced.version != cur.version) for (int k = 0; k < K_N; ++k) if (pm.m[k] & ((1u << S_NONASCII) | (1u << S_UNENC) | (1u << S_LOSSYCAN))) pm.m[k] |= (1u << S_C1) | (1u << S_NEL) | (1u << S_LSEP);   // classes that only exist under XML 1.1
+        if (g.reduced.version != cur.version) for (int k = 0; k < K_N; ++k) if (pm.m[k] & ((1u << S_NONASCII) | (1u << S_UNENC) | (1u << S_LOSSYCAN) | (1u << S_UNENC_ASCII))) pm.m[k] |= (1u << S_C1) | (1u << S_NEL) | (1u << S_LSEP);   // classes that only exist under XML 1.1
         forEachString(r, evCdata, [&](XS& x, CK k) { for (int c = 1; c < S_N; ++c) if (pm.m[k] & (1u << c)) x = replaceSigClass(x, c, enc, v11, k == K_NAME); });
         return r;
     }
